@@ -188,7 +188,7 @@ fn random_steps(t: &mut Tape, len: usize) -> Vec<Step> {
 
 fn case_random<F: Family>(input: &Input, ctx: &mut Ctx) -> CaseResult {
     let mut t = Tape::new(input.tape());
-    let (data, origin): (Vec<u8>, &str) = if ctx.thorough && t.chance(1, 64) {
+    let (data, origin): (Vec<u8>, &str) = if ctx.thorough && t.chance(1, 512) {
         // a packet whose header uses four length bytes
         let p = c01::sized_publish::<F>(2_097_152 + t.pick(4096));
         (F::encode(&p).map(|b| b.as_ref().to_vec()).unwrap_or_default(), "valid-4-byte-header")
